@@ -262,6 +262,14 @@ pub fn read_board(pb: &PieceBoardState) -> Result<Board, String> {
     Ok(b)
 }
 
+/// Like read_board, but ownership bits on empty squares are ignored (used only to decide whether a
+/// parsed start shows the intended position; the strict reader is what the checks themselves use).
+pub fn read_board_lenient(pb: &PieceBoardState) -> Result<Board, String> {
+    let mut q = pb.clone();
+    q.p1_pieces &= q.all_pieces;
+    read_board(&q)
+}
+
 pub fn board_text(b: &Board) -> String {
     // compact one-line form: pieces as letter+square
     let mut v = vec![];
@@ -295,11 +303,15 @@ pub fn winner_of(t: &Option<Terminal>) -> Option<Winner> {
 
 /// Engine state for a model position, through the documented entry (the diagram parser).
 pub fn engine_from_position(b: &Board, gold_to_move: bool, move_number: usize) -> Result<GameState, String> {
-    let text = b.diagram(move_number, gold_to_move);
+    engine_from_position_styled(b, gold_to_move, move_number, 0)
+}
+
+pub fn engine_from_position_styled(b: &Board, gold_to_move: bool, move_number: usize, notation: u8) -> Result<GameState, String> {
+    let text = b.diagram_styled(move_number, gold_to_move, notation);
     let gs = guard(|| text.parse::<GameState>())
         .map_err(|e| format!("parser panicked on harness diagram: {}", e))?
         .map_err(|e| format!("parser rejected harness diagram: {}", e))?;
-    let rb = read_board(gs.piece_board())?;
+    let rb = read_board_lenient(gs.piece_board())?;
     if rb != *b || gs.is_p1_turn_to_move() != gold_to_move || gs.move_number() != move_number {
         return Err(format!("parser built a different position from the harness diagram:\n{}", text));
     }
